@@ -549,3 +549,28 @@ theorem runFile_take_idx (buf : Bytes) (off m j : Nat) (hm : m ≤ buf.length)
 
 end Cfg
 end FeVerif
+
+namespace FeVerif
+namespace Cfg
+variable {c : Cfg}
+
+/-- The messages of a file scan are listed in increasing offset order and do not overlap. -/
+theorem runFile_pairwise (buf : Bytes) (off : Nat) :
+    (c.runFile buf off).Pairwise fun a b => a.1 + a.2 ≤ b.1 := by
+  induction hlen : buf.length using Nat.strongRecOn generalizing buf off with
+  | ind k ih =>
+    cases hs : c.stepFile buf with
+    | stop => rw [runFile_stop hs]; exact List.Pairwise.nil
+    | drop =>
+      have hpos := stepFile_drop_pos hs
+      rw [runFile_drop hs]
+      exact ih (buf.drop 1).length (by simp; omega) _ _ rfl
+    | emit n =>
+      have hpos := stepFile_emit_pos hs
+      rw [runFile_emit hs, List.pairwise_cons]
+      refine ⟨?_, ih (buf.drop n).length (by simp; omega) _ _ rfl⟩
+      intro e he
+      exact (runFile_ge (c := c) _ _ e he).1
+
+end Cfg
+end FeVerif
